@@ -12,6 +12,7 @@ The oracle ("judge") runs in the runner as plain CPython code on Python ints; on
 Data model is LP64 (long = 64 bit), asserted by checks through a compiled sizeof table.
 """
 import json
+import cmath
 import math
 import random
 import warnings
@@ -772,6 +773,11 @@ def make_pow_judge(p):
         tol = rel
         if res == "float" or res == "complex":
             tol = tol or (1e-5 if res == "float" else 1e-12)
+        elif res == "double":
+            # C07 claims the result TYPE for C results and exact values only for integer powers (judged by the integer
+            # model) and for Python-typed results: a C double may be computed by a different but equivalent C
+            # expression (x ** -1 -> 1.0 / x, x ** 2 -> x * x), i.e. differ from libm's pow() in the last bit or two
+            tol = tol or 1e-15
         if res in ("soft", "complex") and type(w) is complex and type(got) is float and w.imag == 0 and _same_float(got, w.real, 1e-12):
             return None
         if res == "soft" and type(w) is complex:
@@ -930,6 +936,20 @@ def make_cplx_judge(p):
         if any(x != 0 and abs(x) < 1e-290 for x in cg + cw) and same_number(got, w, 1e-9):
             # result in the gradual-underflow range: intermediate products are subnormal, a few more bits are lost
             return None if finite_only else "last-bits-differ"
+        if op == "pow" and len(vals) == 2:
+            if all(x == 0 for x in cw) and all(abs(x) < 1e-100 for x in cg):
+                # CPython's formula pow(|a|, b.real) * exp(-b.imag * arg(a)) underflows in the first factor and returns 0
+                # although the mathematical result is a tiny normal number (which the C library computes)
+                return "python-underflows-to-zero"
+            try:
+                cond = abs(complex(vals[1]) * cmath.log(complex(vals[0])))
+            except (ValueError, OverflowError, ZeroDivisionError):
+                cond = 0.0
+            if cond > 1e6:
+                # a ** b = exp(b * log(a)): a rounding error of one ulp in log(a) is amplified by |b * log(a)|; beyond 1e6
+                # the two implementations legitimately disagree in more than the last 10 digits (the phase b.imag*ln|a|
+                # of a 1e20 exponent is noise on both sides)
+                return "ill-conditioned-exponent"
         return "wrong-value"
 
     return Judge(expect, verdict)
